@@ -57,7 +57,7 @@ func VerifC16_AIMD() {
 //
 //verif:harness property=C16 theory=real tier=quick nomono=1
 func VerifC16_Vegas() {
-	verifQuickSmooth = 1
+	verifQuickSmooth = 2
 	l, _ := verifVegasState(true)
 	verifNotify("vegas", l, verifRegister(l), verifOneSample(l))
 }
@@ -66,7 +66,7 @@ func VerifC16_Vegas() {
 //
 //verif:harness property=C16 theory=real tier=quick nomono=1
 func VerifC16_Gradient() {
-	verifQuickSmooth = 1
+	verifQuickSmooth = 2
 	l, _ := verifGradientState(true)
 	verifNotify("gradient", l, verifRegister(l), verifOneSample(l))
 }
@@ -75,7 +75,7 @@ func VerifC16_Gradient() {
 //
 //verif:harness property=C16 theory=real tier=quick nomono=1
 func VerifC16_Gradient2() {
-	verifQuickSmooth = 1
+	verifQuickSmooth = 2
 	l, _, _ := verifGradient2State()
 	verifNotify("gradient2", l, verifRegister(l), verifOneSample(l))
 }
